@@ -22,7 +22,7 @@ FOREIGN_POSITIONS = ["", "g", "dc", "m", "m.init_args", "ld.0", "fit", "od", "dd
 FOREIGN_NAMES = {"": ["zz", "num", "zz+", "a+"], "g": ["zz", "cou", "zz+", "c+"], "m.init_args": ["zz", "hidden", "zz+"], "fit": ["zz", "max", "zz+", "y+"], "nd": ["zz", "size", "zz+"],
                  "dc": ["zz", "zz+"], "ld.0": ["zz", "zz+"], "od": ["zz", "zz+"], "dd.k": ["zz", "zz+"], "m": ["zz", "zz+"]}
 # ('+' is the list-append suffix: on an unknown key, or on a key that is not list-typed, it is as foreign as any other key)
-FOREIGN_KINDS = ["int", "none", "dict", "str"]
+FOREIGN_KINDS = ["int", "none", "dict", "str", "empty-dict", "nested-empty-dict"]
 REQUIRED_KEYS = ["a", "g.b", "dc.a", "m.init_args.w", "ld.0.a", "fit.x", "subcommand+fit", "m", "od.a", "dd.k.a"]
 REMOVAL_KINDS = ["removed", "none"]
 CHANNELS = ["object", "parse_string", "cfg_text", "argv", "env", "validate"]
@@ -151,7 +151,7 @@ def _call(channel, obj):
 def _foreign_once(pos, kind, channel, name="zz"):
     obj = _valid()
     node = _node(obj, pos)
-    node[name] = {"int": 5, "none": None, "dict": {"q": 1}, "str": "v"}[kind]
+    node[name] = {"int": 5, "none": None, "dict": {"q": 1}, "str": "v", "empty-dict": {}, "nested-empty-dict": {"q": {}}}[kind]
     if channel in ("argv", "env") and pos == "":
         # a foreign top-level key is an unknown option / an environment variable nobody reads: argv must reject, env has nothing to reject
         if channel == "env":
